@@ -420,7 +420,7 @@ NATURAL = ["missing_input", "empty_input", "garbage_input", "binary_input", "no_
            "nonintegral_userff", "garbage_userff", "broken_names_xml", "ligand_missing_file", "ligand_garbage",
            "ligand_duplicate_names", "unknown_option", "cif_garbage", "input_is_directory", "his_no_h_assign_only",
            "conflicting_clean_userff", "only_waters_dropped", "ter_only", "ligand_partial_nonintegral",
-           "ligand_partial_nonintegral"]
+           "ligand_partial_nonintegral", "nonintegral_userff_large", "nonintegral_userff_large"]
 
 
 def good_text(rng):
@@ -476,6 +476,24 @@ def natural(spec, rng):
         assert bad != amber_dat
         extra = {"u.dat": bad, "u.names": amber_names}
         opts = ["--userff={dir}/u.dat", "--usernames={dir}/u.names"]
+    elif f == "nonintegral_userff_large":
+        # the same non-integral parameter set on a large system (hundreds of waters): the size of the structure
+        # must not make the total-charge check more lenient
+        import re
+        bad = re.sub(r"^(SER\s+CB\s+)(-?[0-9.]+)", lambda mo: mo.group(1) + rng.choice(["0.3333", "0.2400", "0.7100"]),
+                     amber_dat, count=1, flags=re.M)
+        extra = {"u.dat": bad, "u.names": amber_names}
+        opts = ["--userff={dir}/u.dat", "--usernames={dir}/u.names"] + rng.choice([[], ["--noopt"]])
+        c0 = S.centroid(S.peptide(["ALA"], rng))
+        nw = rng.choice([150, 320, 650])
+        side = int(round(nw ** (1 / 3))) + 1
+        wat = []
+        for k in range(nw):
+            i, j, l = k % side, (k // side) % side, k // (side * side)
+            wat.append({"resn": "HOH", "kind": "wat", "atoms": [("O", np.array([30.0 + 3.1 * i, 30.0 + 3.1 * j, 30.0 + 3.1 * l]))]})
+        pep = S.peptide(["ALA", "SER", "LYS", "GLY"], rng)
+        its, _ = S.assemble([{"id": "A", "start": 1, "residues": pep}, {"id": "W", "start": 1, "residues": wat}])
+        text = pdbfmt.to_text(its)
     elif f == "garbage_userff":
         extra = {"u.dat": "ALA CB notanumber 1.0\n", "u.names": amber_names}
         opts = ["--userff={dir}/u.dat", "--usernames={dir}/u.names"]
